@@ -110,7 +110,35 @@ def make_selections(rng, tables, n_extra, all_subsets=True):
                 t2 = rng.choice(names)
                 items.append(make_item(rng, t2, tables[t2][0], tables[t2][1], t2 == 'connection'))
             sels.append(dict(items=items, form='list', why='rich'))
+    for _ in range(max(3, n_extra // 2)):
+        sels.append(make_invalid(rng, tables))
     return sels
+
+
+def make_invalid(rng, tables):
+    """a selection in which no entry names an existing cell: unknown row names, table types the file does not have,
+    unknown type letters, the empty list, and mixtures of these"""
+    present = set(tables)
+    absent_specs = [sp for sp, nm in [('p', 'primary'), ('c', 'connection'), ('g', 'generation'), ('e1', 'element1'), ('e2', 'element2'),
+                                      ('e7', 'element7'), ('P', 'primary'), ('G', 'generation')] if nm not in present]
+    def one():
+        kind = rng.choice(['row', 'row', 'table', 'letter'] if absent_specs else ['row', 'row', 'letter'])
+        if kind == 'row':
+            t = rng.choice(sorted(present))
+            rows, cols = tables[t]
+            key = ['zzzzz', 'yyyyy'] if (rows and isinstance(rows[0], tuple)) else 'zzzzz'
+            if rng.random() < 0.3:
+                key = 'zzzzz'                      # a single name, also on a two-name table
+            return [SPEC_OF.get(t, 'e'), key, rng.choice(cols) if cols else 'x']
+        if kind == 'table':
+            return [rng.choice(absent_specs), rng.choice([0, 'zzzzz']), 'P']
+        return [rng.choice(['x', 'q', 'z9']), 0, 'P']
+    how = rng.choice(['empty', 'single', 'single', 'tuple', 'mixture', 'mixture'])
+    if how == 'empty':
+        return dict(items=[], form='list', why='invalid-empty')
+    if how in ('single', 'tuple'):
+        return dict(items=[one()], form='tuple' if how == 'tuple' else 'list', why='invalid-' + how)
+    return dict(items=[one() for _ in range(rng.randint(2, 4))], form='list', why='invalid-mixture')
 
 
 def table_name_of(spec):
@@ -282,6 +310,24 @@ def job_c06(job, progress):
             rec = 'unreadable'
         res['calls'].append(dict(call, out=rec))
         res.setdefault('keys', []).append(json.dumps([rel, vspec, items, short, call['start']], sort_keys=True))
+        if s.get('why', '').startswith('invalid'):
+            st['selections-naming-nothing-generated'] += 1
+        if s.get('why', '').startswith('invalid') or rng.random() < 0.1:
+            # "the reader still shows the same current time": what next() and prev() do right after the call
+            st['next-prev-after-history'] += 1
+            try:
+                i0 = before[0]
+                m1 = bool(lst.next()); i1 = lst.index
+                lst.index = i0
+                m2 = bool(lst.prev()); i2 = lst.index
+                lst.index = i0
+                want = (i0 < n - 1, i0 + 1 if i0 < n - 1 else i0, i0 > 0, i0 - 1 if i0 > 0 else i0)
+                if (m1, i1, m2, i2) != want:
+                    viol('history-changes-navigation:%s' % family,
+                         'right after history(%r) at index %d of %d: next() returned %r and went to index %r, prev() returned %r and went to %r'
+                         % (arg, i0, n, m1, i1, m2, i2), **call)
+            except Exception as e:
+                viol('history-changes-navigation:%s' % family, 'right after history(%r): next()/prev() raise %s' % (arg, type(e).__name__), **call)
         d = L.views_equal(before, after)
         if d:
             viol('history-changes-view:%s' % family, 'after history(%r) the reader shows something else than before: %s' % (arg, d), **call)
